@@ -75,6 +75,7 @@ class RefController:
         self.reduced = False       # ... and the rate was actually changed
         self.resets = 0            # number of genuine resets (a success after burn-in) so far
         self.fired_after_reset = False
+        self.eps_boundary = False
 
     @staticmethod
     def _undercuts(ref, val, thr):
@@ -110,6 +111,8 @@ class RefController:
                 if self.resets:
                     self.fired_after_reset = True
                 new = self.lr * c["factor"]
+                if Fraction(self.lr) - Fraction(new) == Fraction(10) ** c["eps"]:
+                    self.eps_boundary = True   # change exactly equal to epsilon: "not negligible" needs strictly more
                 if Fraction(self.lr) - Fraction(new) > Fraction(10) ** c["eps"]:
                     self.lr = new
                     self.reduced = True
